@@ -82,8 +82,9 @@ def factory_dispatch(ctx: Ctx, short: str, base_cls: str, kinds: List[Tuple[str,
                     try:
                         val = it.truth(it.ev(g))
                     except DTop:
-                        ok = False
-                        break
+                        # a guard over something other than the kind tuple (number of dimensions, a flag):
+                        # unknown - this path stays possible
+                        continue
                     if val != pol:
                         ok = False
                         break
